@@ -50,13 +50,17 @@ func TestCheck(t *testing.T) {
 	vk.Main(t, vk.Spec{
 		Prop:  "C12",
 		Level: "model_checking",
-		Rule: "explicit enumeration on the real store: (arrival) all multisets of <=3 (quick) / <=4 (thorough) values over 4 slots x 3 timestamps, of 4 (quick) / 5 (thorough) values over the 2 devices of one key, thorough also <=3 over 6 slots, each with at most one " +
-			"repeated value, all distinct permutations, all compositions into SetRaw batches; (local) one real " +
-			"Storage.Set at every position of such sequences; (exchange) all ordered pairs of distinct reachable contents with <=3 values, one " +
-			"real syncWithPeer each; (auth) every relabelling / byte / signature / signer mutation of valid values inside [valid, mutant, valid]; " +
-			"(faults) an error at every storage-call boundary of a write. states = distinct canonical store contents (symbolic slot=timestamp " +
-			"maps); distinct = outcome classes (per-arrival insert/replace/lose/duplicate patterns with batch shape, exchange directions, " +
-			"mutation class x verdict, fault boundary x batch kind).",
+		Rule: "explicit enumeration on the real store, every case replayed on an emptied store: (arrival) all multisets with at most one repeated " +
+			"value of <=3 (quick) / <=4 (thorough) values over 4 slots x 3 timestamps and of 4 values over the 2 devices of one key (thorough also: " +
+			"5 distinct values over those, <=3 values over 6 slots involving the second account), all distinct permutations, all compositions into " +
+			"batches, delivered by Storage.SetRaw or as a pushed batch through keyValueService.HandleMessage; (local) one real Storage.Set at every " +
+			"position of such sequences of <=3/4 remote values; (exchange) all ordered pairs of distinct contents with <=2 (quick) / <=3 (thorough) " +
+			"values over 4 slots, one real syncWithPeer <-> HandleStoreDiffRequest/HandleStoreElementsRequest each, plus 5 fixed scenarios with " +
+			"300-slot stores; (auth) every relabelling / byte x 5 patterns / signature / signer mutation of valid values inside [valid, mutant, " +
+			"valid]; (faults) an error before/after every storage call of a write for 7 fixed batches and all batches of <=2/3 values x 3 pre-states. " +
+			"states = distinct canonical store contents (symbolic slot=timestamp maps); distinct = outcome classes (per-arrival " +
+			"insert/replace/lose/duplicate patterns with batch shape and delivery path, exchange directions, mutation class x verdict, fault " +
+			"boundary x mode x batch kind).",
 		Assumptions: []string{
 			"timestamps are distinct within a slot (the property's quantifier); equal-timestamp conflicts are not judged",
 			"the element stream of an exchange is run in the schedule 'client sends everything, then the server runs, then the client reads' — the only one syncWithPeer's code allows up to buffering",
@@ -84,7 +88,8 @@ type guards struct {
 	localAfter    int
 	bothWays      int
 	oneWay        int
-	rejected      map[string]int
+	rejected      map[string]int // mutants judged "not stored, neighbours stored", per class
+	flagged       map[string]int // mutants whose case was reported as a violation, per class
 	faultNames    map[string]int
 	faultCases    int
 	faultBatches  int
@@ -113,7 +118,7 @@ func body(c *vk.Ctx) {
 	}
 	w := newWorld(c)
 	defer w.close()
-	k := &checker{c: c, w: w, g: &guards{rejected: map[string]int{}, faultNames: map[string]int{}}, reopenSeen: map[uint64]bool{}}
+	k := &checker{c: c, w: w, g: &guards{rejected: map[string]int{}, flagged: map[string]int{}, faultNames: map[string]int{}}, reopenSeen: map[uint64]bool{}}
 	k.ctl = &faultCtl{}
 	k.fdb = &fDB{DB: w.db, ctl: k.ctl}
 	var err error
@@ -125,7 +130,7 @@ func body(c *vk.Ctx) {
 		return
 	}
 	c.Bound("slots_quick", "2 keys x devices {W1,W2} (writer account W, two devices)")
-	c.Bound("slots_thorough_extra", "2 keys x devices {W1,W2,O1} (second account: owner O)")
+	c.Bound("slots_thorough_extra", "arrival: 2 keys x devices {W1,W2,O1} (second account: owner O)")
 	c.Bound("timestamps_per_slot", 3)
 
 	// order: small decisive parts first, the large enumerations afterwards (they honour the deadline)
@@ -256,6 +261,26 @@ func (k *checker) runArrival(cs arrivalCase) (key, what string) {
 		}
 		pat = append(pat, p)
 	}
+	// vacuity counters describe the input that was exercised, whatever the verdict
+	if lost {
+		g.olderLost++
+	}
+	if inBatch {
+		g.inBatchOlder++
+	}
+	if dup {
+		g.duplicates++
+	}
+	byKey := map[string]int{}
+	for _, v := range m {
+		byKey[v.Key]++
+	}
+	for _, n := range byKey {
+		if n >= 2 {
+			g.coexist++
+			break
+		}
+	}
 	k.c.Distinct("states", m.canon())
 	k.c.Distinct("distinct", "arrival "+cs.Via+" "+strings.Join(pat, "|"))
 	k.c.Count("evaluations", 1)
@@ -282,30 +307,13 @@ func (k *checker) runArrival(cs arrivalCase) (key, what string) {
 			return "reopen/head-entry", fmt.Sprintf("contents %s: after re-opening the head entry is %v, the index hash %s", m.canon(), headAfter, hash)
 		}
 	}
-	if lost {
-		g.olderLost++
-	}
-	if inBatch {
-		g.inBatchOlder++
-	}
-	if dup {
-		g.duplicates++
-	}
-	byKey := map[string]int{}
-	for _, v := range m {
-		byKey[v.Key]++
-	}
-	for _, n := range byKey {
-		if n >= 2 {
-			g.coexist++
-			break
-		}
-	}
 	return "", ""
 }
 
 // multisets calls f with every non-decreasing index tuple of length n over [0,alpha) with at most one repeat.
-func multisets(alpha, n int, f func(idx []int)) {
+func multisets(alpha, n int, f func(idx []int)) { multisetsDup(alpha, n, true, f) }
+
+func multisetsDup(alpha, n int, allowDup bool, f func(idx []int)) {
 	idx := make([]int, n)
 	var rec func(pos, from int, dupUsed bool)
 	rec = func(pos, from int, dupUsed bool) {
@@ -322,7 +330,7 @@ func multisets(alpha, n int, f func(idx []int)) {
 			rec(pos+1, i, dupUsed || isDup)
 		}
 	}
-	rec(0, 0, false)
+	rec(0, 0, !allowDup)
 }
 
 // nextPerm advances a to the next distinct permutation in lexicographic order.
@@ -358,13 +366,23 @@ func compose(seq []Val, mask int) (out [][]Val) {
 	return
 }
 
-func (k *checker) enumArrival(tag string, alpha []Val, minN, maxN int, ci *int) (complete bool) {
+// enumArrival: allowDup = one value may occur twice; need != "" keeps only multisets with a value of that device.
+func (k *checker) enumArrival(tag string, alpha []Val, minN, maxN int, allowDup bool, need string, ci *int) (complete bool) {
 	c := k.c
 	for n := minN; n <= maxN; n++ {
 		stop := false
-		multisets(len(alpha), n, func(idx []int) {
+		multisetsDup(len(alpha), n, allowDup, func(idx []int) {
 			if stop {
 				return
+			}
+			if need != "" {
+				has := false
+				for _, x := range idx {
+					has = has || alpha[x].Dev == need
+				}
+				if !has {
+					return
+				}
 			}
 			perm := append([]int(nil), idx...)
 			for ok := true; ok; ok = nextPerm(perm) {
@@ -410,16 +428,18 @@ func (k *checker) partArrival() {
 	// 4 (thorough) arrivals, and the longest sequences over the two devices of one key.
 	two := alphabetOf([]Val{{Key: "alpha", Dev: "W1"}, {Key: "alpha", Dev: "W2"}})
 	four := alphabetOf(slotsOf("W1", "W2"))
-	ok := k.enumArrival("4slots", four, 1, vk.Pick(c, 3, 4), &ci)
-	ok = ok && k.enumArrival("2slots", two, vk.Pick(c, 4, 5), vk.Pick(c, 4, 5), &ci)
+	ok := k.enumArrival("4slots", four, 1, vk.Pick(c, 3, 4), true, "", &ci)
+	ok = ok && k.enumArrival("2slots", two, 4, 4, true, "", &ci)
 	if ok && c.Thorough() {
-		k.enumArrival("6slots", alphabetOf(slotsOf("W1", "W2", "O1")), 1, 3, &ci)
+		ok = k.enumArrival("2slots_nodup", two, 5, 5, false, "", &ci)
+		// the second account (owner O, device O1): only the multisets the 4-slot alphabet does not contain
+		ok = ok && k.enumArrival("6slots_withO1", alphabetOf(slotsOf("W1", "W2", "O1")), 1, 3, true, "O1", &ci)
 	}
 	c.Require(g.olderLost > 0, "vacuity: no arrival sequence in this shard where an older value arrived after a newer one and lost")
 	c.Require(g.inBatchOlder > 0, "vacuity: no batch in this shard carrying an older value behind a newer one of the same slot")
 	c.Require(g.coexist > 0, "vacuity: no final contents in this shard where two devices hold values under the same key")
 	c.Require(g.duplicates > 0, "vacuity: no arrival sequence in this shard delivering a value twice")
-	c.Require(g.reopened > 0, "vacuity: no store was re-opened in this shard")
+	c.Require(g.reopened > 0 || c.NViolations() > 0, "vacuity: no store was re-opened in this shard")
 }
 
 // ---- local Set ----------------------------------------------------------------------------------------
@@ -521,6 +541,12 @@ func (k *checker) runLocal(cs localCase) (key, what string) {
 		docs = sortedDocs(append(docs, *local))
 		canon += "+local(" + localSlot + ")"
 	}
+	if replaced {
+		g.localWon++
+	}
+	if laterLost {
+		g.localAfter++
+	}
 	c.Distinct("states", canon)
 	c.Distinct("distinct", "local "+pat)
 	c.Count("evaluations", 1)
@@ -530,12 +556,6 @@ func (k *checker) runLocal(cs localCase) (key, what string) {
 	}
 	if wh, detail := w.judge(o, docs, keyNames); wh != "" {
 		return "local/" + wh, fmt.Sprintf("after %s the store must hold %s: %s", stepsStr(cs.Steps), canon, detail)
-	}
-	if replaced {
-		g.localWon++
-	}
-	if laterLost {
-		g.localAfter++
 	}
 	return "", ""
 }
@@ -650,6 +670,12 @@ func (k *checker) runExchange(cs xCase) (key, what string) {
 	if err != nil {
 		return "exchange/error", fmt.Sprintf("%s: syncWithPeer returned %v", desc, err)
 	}
+	k.lastStats = *stats
+	if stats.pushed > 0 && stats.pulled > 0 {
+		g.bothWays++
+	} else if stats.pushed > 0 || stats.pulled > 0 {
+		g.oneWay++
+	}
 	c.Distinct("states", ma.canon())
 	c.Distinct("states", mb.canon())
 	c.Distinct("states", mu.canon())
@@ -668,12 +694,6 @@ func (k *checker) runExchange(cs xCase) (key, what string) {
 		if wh, detail := w.judge(o, want, keyNames); wh != "" {
 			return "exchange/" + side.name + "-" + wh, fmt.Sprintf("%s: after one exchange both stores must hold %s; %s side: %s", desc, mu.canon(), side.name, detail)
 		}
-	}
-	k.lastStats = *stats
-	if stats.pushed > 0 && stats.pulled > 0 {
-		g.bothWays++
-	} else if stats.pushed > 0 || stats.pulled > 0 {
-		g.oneWay++
 	}
 	return "", ""
 }
@@ -728,9 +748,7 @@ func (k *checker) partExchange() {
 	c, g := k.c, k.g
 	pi := 0
 	ok := k.enumExchange("4slots", contents(slotsOf("W1", "W2"), vk.Pick(c, 2, 3)), &pi)
-	if ok && c.Thorough() {
-		k.enumExchange("6slots", contents(slotsOf("W1", "W2", "O1"), 2), &pi)
-	}
+	_ = ok
 	// a few large stores (several hundred slots: the index is subdivided, the comparison takes several rounds of
 	// range requests over the wire) — fixed scenarios, not an enumeration
 	if c.NShards <= 1 || c.Shard == 4%c.NShards {
@@ -880,6 +898,9 @@ func (k *checker) mutant(base Val, m Mut) *spacesyncproto.StoreKeyValue {
 		in.Peer = mustMarshalPub(w.devKey[m.Arg].GetPublic())
 		return w.seal(in, w.slotId(base.Key, m.Arg), w.devKey[base.Dev], accKey)
 	case "identity-replaced": // the signed bytes name account Arg; nobody re-signs
+		if m.Arg == base.acc() {
+			return nil
+		}
 		in := w.inner(base)
 		in.Identity = w.sim.Acc(m.Arg).Proto
 		b, err := in.MarshalVT()
@@ -889,6 +910,9 @@ func (k *checker) mutant(base Val, m Mut) *spacesyncproto.StoreKeyValue {
 		p.Value = b
 		return p
 	case "identity-replaced-device-resigned": // ... the device re-signs, the named account never signed
+		if m.Arg == base.acc() {
+			return nil
+		}
 		in := w.inner(base)
 		in.Identity = w.sim.Acc(m.Arg).Proto
 		return w.seal(in, p.KeyPeerId, w.devKey[base.Dev], accKey)
@@ -996,6 +1020,13 @@ func (k *checker) partAuth() {
 		}
 		if key != "" {
 			c.Violation(key, what, cs)
+			cl := cs.Mut.Class
+			if cl == "signer" {
+				cl += "/" + cs.Mut.Arg
+			} else if cl == "relabel" {
+				cl += "/" + strings.SplitN(cs.Mut.Arg, ":", 2)[0]
+			}
+			g.flagged[cl]++
 		}
 	}
 	small := c.NShards <= 1 || c.Shard == 3%c.NShards
@@ -1084,7 +1115,7 @@ func (k *checker) partAuth() {
 		}
 		for _, cl := range []string{"relabel/empty", "value-truncated", "value-extended", "sig-missing", "sigs-swapped", "sigs-both-by-one-key", "peer-not-signer",
 			"identity-replaced", "identity-replaced-device-resigned", "signer/unknown-acl-record"} {
-			c.Require(g.rejected[cl] > 0, "vacuity: no mutant of class %s was rejected", cl)
+			c.Require(g.rejected[cl]+g.flagged[cl] > 0, "vacuity: no mutant of class %s was judged", cl)
 		}
 		// the classes below are rejected only by a store that checks the slot name / the signer's permission;
 		// when they are stored a violation is reported above, so they need no vacuity guard
@@ -1095,9 +1126,9 @@ func (k *checker) partAuth() {
 		sort.Strings(cls)
 		c.Note("auth (shard %d): mutants rejected per class: %s", c.Shard, strings.Join(cls, " "))
 	}
-	c.Require(g.rejected["value-byte"] > 0 && g.rejected["idsig-byte"] > 0 && g.rejected["peersig-byte"] > 0,
-		"vacuity: this shard rejected no byte mutant of the value (%d), identity signature (%d) or device signature (%d)",
-		g.rejected["value-byte"], g.rejected["idsig-byte"], g.rejected["peersig-byte"])
+	for _, cl := range []string{"value-byte", "idsig-byte", "peersig-byte"} {
+		c.Require(g.rejected[cl]+g.flagged[cl] > 0, "vacuity: this shard judged no %s mutant", cl)
+	}
 }
 
 // ---- faults -------------------------------------------------------------------------------------------
